@@ -321,7 +321,7 @@ PROPS["C02"] = {
     "crate": "gen",
     "groups": [
         {"id": "shapes",
-         "quick": ["c02::c02_args_slices", "c02::c02_args_mutable", "c02::c02_args_values", "c02::c02_args_callback_iterator", "c02::c02_iterator_argument_not_fused",
+         "quick": ["c02::c02_args_slices", "c02::c02_args_mutable", "c02::c02_args_values", "c02::c02_args_callback_iterator", "c02::c02_iterator_argument_not_fused", "c02::c02_strings_multibyte",
                    "c02::c02_returns", "c02::c02_boxed_object", "c02::c02_npo_options", "c02::c02_narrow_options_and_zst_mut_slices", "c02::c02_negative_twin",
                    # integer-coded results with an io::Error payload (every i32 OS code) - shared with C13
                    "c13e::c13e_io_codes", "c13e::c13e_roundtrip"],
@@ -348,7 +348,8 @@ PROPS["C04"] = {
          "quick": ["c04::c04_vtbl_counter", "c04::c04_vtbl_reader_consume_gen", "c04::c04_group_words",
                    "c04::c04_object_words_and_sizes", "c04::c04_vtbl_only_in_declaration_order",
                    "c04::c04_group_alias_name_order", "c04::c04_object_with_context_words",
-                   "c04::c04_vtbl_provided_methods_have_slots", "c04::c04_noncontiguous_cast_and_ret_tmp_order",
+                   "c04::c04_vtbl_provided_methods_have_slots", "c04::c04_overaligned_type_argument",
+                   "c04::c04_container_order_with_context_and_ret_tmp", "c04::c04_noncontiguous_cast_and_ret_tmp_order",
                    "c04::c04_negative_twin"],
          "timeout": 900},
     ],
@@ -389,7 +390,7 @@ PROPS["C07"] = {
     "crate": "gen",
     "groups": [
         {"id": "context",
-         "quick": ["c07::c07_owned_tree", "c07::c07_arc_context_tree", "c07::c07_consuming_call_keeps_context", "c07::c07_clone_cast_selfreturn",
+         "quick": ["c07::c07_owned_tree", "c07::c07_arc_context_tree", "c07::c07_borrowed_child_moved_out_and_dropped", "c07::c07_consuming_call_keeps_context", "c07::c07_clone_cast_selfreturn",
                    "c07::c07_caller_glue_holds_context_across_consuming_call", "c07::c07_consuming_call_returning_wrapped_result",
                    "c07::c07_failed_cast_and_int_result_child", "c07::c07_instance_destroyed_before_context_released",
                    "c07::c07_kf_borrowed_obj_ref", "c07::c07_kf_borrowed_obj_mut", "c07::c07_kf_borrowed_group_ref",
